@@ -268,7 +268,7 @@ PROPS = {
                       "Validation: real child processes are ABORTED at every (point, occurrence) of a victim write and of a forced rotation (hook handler), the directory and "
                       "symlink are compared with the model's crashDir, a new logger is started on it and the run continued and compared; the sequence of point names of "
                       "an operation is compared with the model's trace.",
-        "level_note": "History theorems: no cleanup. The cleanup pass itself is proved crash-safe on its own (Props/C11Cleanup: at EVERY recorded point of a pass over a "
+        "level_note": "History theorems: no cleanup; with cleanup, Props/C11Reach closes the link between histories and the pass for rotations within a run (reachable_write_cleanup_crash_safe, reachable_rotate_cleanup_crash_safe: in every state reachable by a plain history, at every recorded point of the cleanup pass that a due rotation starts, every rotated file that is in the directory after the completed operation is completely on disk). The cleanup pass itself is proved crash-safe on its own (Props/C11Cleanup: at EVERY recorded point of a pass over a "
                       "directory in which no infix occurs twice, every file within the keep limits is completely on disk, plain or compressed, and nothing outside the listing "
                       "is touched; the premise is C07's reachable_ifxDistinct; without it the statement is false - example exDup); how a history reaches such a pass and what "
                       "the restarted logger does with an original next to an unfinished .gz is covered by the kill runs + correspondence (the model's crashDir includes those "
